@@ -1,0 +1,50 @@
+//go:build verif && linux
+
+package archive
+
+import "syscall"
+
+// Exports for the verification harness (/verif). Compiled only with -tags verif; adds no behaviour.
+
+// VerifTreeNode is one node of a FileInfo tree with exactly the fields Changes compares.
+type VerifTreeNode struct {
+	Name      string
+	Mode      uint32
+	IsDir     bool
+	Uid       uint32
+	Gid       uint32
+	Rdev      uint64
+	Size      int64
+	MtimeSec  int64
+	MtimeNsec int64
+	Cap       []byte
+	Children  []*VerifTreeNode // in the iteration order of the children map at the time of the dump
+}
+
+func verifTree(info *FileInfo) *VerifTreeNode {
+	n := &VerifTreeNode{Name: info.name, IsDir: info.isDir(), Cap: info.capability}
+	if info.stat != nil {
+		n.Mode = uint32(info.stat.Mode())
+		n.Size = info.stat.Size()
+		mt := info.stat.ModTime()
+		n.MtimeSec, n.MtimeNsec = mt.Unix(), int64(mt.Nanosecond())
+		if st, ok := info.stat.Sys().(*syscall.Stat_t); ok {
+			n.Uid, n.Gid, n.Rdev = st.Uid, st.Gid, uint64(st.Rdev)
+		}
+	}
+	for _, c := range info.children {
+		n.Children = append(n.Children, verifTree(c))
+	}
+	return n
+}
+
+// VerifChangesOnTrees collects the two trees exactly as ChangesDirs does, dumps them, and returns
+// what Changes computes on those same trees.
+func VerifChangesOnTrees(oldDir, newDir string) (oldT, newT *VerifTreeNode, changes []Change, err error) {
+	oldRoot, newRoot, err := collectFileInfoForChanges(oldDir, newDir)
+	if err != nil {
+		return nil, nil, nil, err
+	}
+	oldT, newT = verifTree(oldRoot), verifTree(newRoot)
+	return oldT, newT, newRoot.Changes(oldRoot), nil
+}
